@@ -11,7 +11,7 @@ import os
 from .. import universe as U, plan as P, observe, compare, xmlout
 from ..compare import Bag, BagKnownExtras, SetOf, PrefixThenSet, Any, canon
 from ..harness import subseed, run_plan, plan_summary
-from ..model import Model, norm_text, meta_of, spec_of, K
+from ..model import Model, norm_text, text_of, meta_of, spec_of, K
 from ..run import Sim, generalize
 
 import wn
@@ -44,8 +44,14 @@ def mrel(r):
     return [r['relType'], r['target'], meta_of(r)]
 
 
-def mex(e):
-    return [norm_text(e['text']), e.get('language'), meta_of(e)]
+def xtext(elem, v):
+    """Text content as an export in version *v* can carry it: only WN-LMF 1.3 can say that
+    white space is significant (xml:space); elsewhere it comes back normalised."""
+    return text_of(elem) if v == '1.3' else norm_text(elem['text'])
+
+
+def mex(e, v):
+    return [xtext(e, v), e.get('language'), meta_of(e)]
 
 
 def project(m: Model, sp, v, annotated):
@@ -92,7 +98,7 @@ def project(m: Model, sp, v, annotated):
             out['senses'][s['id']] = {
                 'synset': s['synset'],
                 'relations': SetOf([mrel(r) for r in s.get('relations', []) or []]),
-                'examples': Bag([mex(x) for x in s.get('examples', []) or []]),
+                'examples': Bag([mex(x, v) for x in s.get('examples', []) or []]),
                 'counts': Bag([[c['value'], meta_of(c)] for c in s.get('counts', []) or []]),
                 'lexicalized': s.get('lexicalized', True),
                 'adjposition': s.get('adjposition'),
@@ -110,16 +116,16 @@ def project(m: Model, sp, v, annotated):
         ili = ss.get('ili') or ''
         o = {
             'ili': ili, 'pos': ss.get('partOfSpeech'),
-            'definitions': Bag([[norm_text(d['text']), d.get('language'), d.get('sourceSense'),
+            'definitions': Bag([[xtext(d, v), d.get('language'), d.get('sourceSense'),
                                  meta_of(d)] for d in ss.get('definitions', []) or []]),
             'relations': SetOf([mrel(r) for r in ss.get('relations', []) or []]),
-            'examples': Bag([mex(x) for x in ss.get('examples', []) or []]),
+            'examples': Bag([mex(x, v) for x in ss.get('examples', []) or []]),
             'lexicalized': ss.get('lexicalized', True),
             'meta': meta_of(ss),
         }
         d = ss.get('ili_definition')
         if ili == 'in':
-            o['ili_definition'] = [norm_text(d['text']), meta_of(d)] if d else None
+            o['ili_definition'] = [xtext(d, v), meta_of(d)] if d else None
         else:
             o['ili_definition'] = Any()   # the shared ILI inventory is set aside
         if ge11:
@@ -361,6 +367,14 @@ class ExportSim(Sim):
             out[part] = {}
             for k, x in img[part].items():
                 x = dict(x)
+                if v != '1.3' and part != 'words':
+                    # (white space that is content cannot be expressed below WN-LMF 1.3)
+                    x['examples'] = [norm_text(t) for t in x['examples']]
+                    if part == 'synsets' and x.get('definition') is not None:
+                        x['definition'] = norm_text(x['definition'])
+                    if part == 'synsets' and isinstance(x.get('ili'), dict) \
+                            and isinstance(x['ili'].get('definition'), str):
+                        x['ili'] = dict(x['ili'], definition=norm_text(x['ili']['definition']))
                 if part == 'senses':
                     x['examples'] = sorted(x['examples'])
                     x['counts'] = sorted(map(canon, x['counts']))
